@@ -44,6 +44,9 @@ fn init_logger() {
 static INLINE: std::__real::sync::atomic::AtomicBool = std::__real::sync::atomic::AtomicBool::new(false);
 static IN_FLIGHT: Mutex<Option<PathBuf>> = Mutex::new(None);
 
+/// --start of the executions (see WorldSpec::start)
+static START: std::__real::sync::atomic::AtomicU64 = std::__real::sync::atomic::AtomicU64::new(0);
+
 /// csvdump runs carry --verify when the world starts with the coin's real genesis block (set by the callers).
 static VERIFY: std::__real::sync::atomic::AtomicBool = std::__real::sync::atomic::AtomicBool::new(false);
 
@@ -149,6 +152,10 @@ fn run_inline(data: &Path, dump: &Path, coin_name: &str, cb: &str, prefix: &[usi
     if cb == "csvdump" && VERIFY.load(std::sync::atomic::Ordering::SeqCst) {
         argv.push("--verify".into());
     }
+    let start = START.load(std::sync::atomic::Ordering::SeqCst);
+    if start > 0 {
+        argv.extend(["-s".to_string(), start.to_string()]);
+    }
     argv.extend(["-c".to_string(), coin_name.to_string(), "-d".to_string(), data.display().to_string(), cb.to_string()]);
     if matches!(cb, "csvdump" | "unspentcsvdump" | "balances") {
         argv.push(dump.display().to_string());
@@ -198,6 +205,9 @@ struct WorldSpec {
     /// executed in item order without choice points (exploration starts from a non-initial state: whatever the subject keeps
     /// between blocks - a memo, a ring of recent scripts, a table that is recycled when full - is filled by then)
     warmup: usize,
+    /// --start: > 0 makes the first block the run evaluates one with several items (process-wide state that is built lazily by
+    /// "the first caller" then has several first callers); 0 = from the genesis block (one transaction, one output)
+    start: u64,
 }
 
 /// the i-th distinct warm-up script (P2PKH of a hash that encodes i)
@@ -331,9 +341,10 @@ fn worker(spec_path: &str, out_path: &str) {
     *IN_FLIGHT.lock().unwrap() = Some(PathBuf::from(format!("{}.inflight", out_path)));
     VERIFY.store(true, std::sync::atomic::Ordering::SeqCst);
     let spec: Value = serde_json::from_str(&std::fs::read_to_string(spec_path).unwrap()).unwrap();
-    let w = WorldSpec { name: spec["name"].as_str().unwrap().into(), coin: coin(spec["coin"].as_str().unwrap()).name, blocks: serde_json::from_value(spec["blocks"].clone()).unwrap(), warmup: spec["warmup"].as_u64().unwrap_or(0) as usize };
+    let w = WorldSpec { name: spec["name"].as_str().unwrap().into(), coin: coin(spec["coin"].as_str().unwrap()).name, blocks: serde_json::from_value(spec["blocks"].clone()).unwrap(), warmup: spec["warmup"].as_u64().unwrap_or(0) as usize, start: spec["start"].as_u64().unwrap_or(0) };
     sched::set_preemption_bound(spec["preemption_bound"].as_u64().unwrap_or(0) as usize);
     sched::set_warmup_regions(if w.warmup > 0 { 4 } else { 0 });
+    START.store(w.start, std::sync::atomic::Ordering::SeqCst);
     // (calendar clock: the monotonic one stands still in a process that runs executions inline)
     let deadline = spec["budget_ms"].as_u64().map(|ms| std::time::SystemTime::now() + std::time::Duration::from_millis(ms));
     let root = scratch();
@@ -345,6 +356,13 @@ fn worker(spec_path: &str, out_path: &str) {
         let cb = job["callback"].as_str().unwrap();
         let roots: Vec<Vec<usize>> = serde_json::from_value(job["roots"].clone()).unwrap();
         let mut stats = json!({});
+        // self-check of the harness: schedule [] executed HERE must give the observation the root process recorded for it (same
+        // world, same options, same scheduler settings) - otherwise root and worker do not run the same thing
+        let (r0, _) = run_once(&data, &dump, w.coin, cb, &[]);
+        if observe(&r0, dump.parent().unwrap()) != job["baseline"] {
+            results.insert(cb.to_string(), json!({"harness_inconsistent": true}));
+            continue;
+        }
         explore_subtree(&data, &dump, &w, cb, &roots, &job["baseline"], &mut stats, deadline);
         results.insert(cb.to_string(), stats);
     }
@@ -361,12 +379,12 @@ pub fn main() {
     if args.len() >= 3 && args[1] == "--replay" {
         std::process::exit(replay(&args[2]));
     }
-    if args.len() < 2 || args[1] != "C13" {
-        eprintln!("usage: inproc-sched C13 | --replay <file>");
+    if args.len() < 2 || (args[1] != "C13" && args[1] != "C13-pool") {
+        eprintln!("usage: inproc-sched C13 | C13-pool | --replay <file>");
         std::process::exit(2);
     }
     init_logger();
-    let rep = c13();
+    let rep = if args[1] == "C13-pool" { c13_pool() } else { c13() };
     std::process::exit(rep.finish());
 }
 
@@ -403,6 +421,7 @@ fn explore_world(rep: &mut Report, root: &Path, exe: &Path, tag: &str, w: &World
     sched::set_preemption_bound(pbound);
     // genesis block and warm-up block: one region for the block, one for its single transaction, each
     sched::set_warmup_regions(if w.warmup > 0 { 4 } else { 0 });
+    START.store(w.start, std::sync::atomic::Ordering::SeqCst);
     let mut sync_points_seen = 0u64;
     let sig = if pbound == 0 { "outcome-depends-on-schedule" } else { "outcome-depends-on-interleaving-inside-closures" };
     let chain = build_world(w);
@@ -425,12 +444,12 @@ fn explore_world(rep: &mut Report, root: &Path, exe: &Path, tag: &str, w: &World
         if let Some(d) = &oc.diverged {
             rep.machinery(format!("{} {}: baseline diverged: {}", w.name, cb, d));
         }
-        let tip = w.blocks.len() as u64;
-        let range = chain.mblocks();
+        let tip = (w.blocks.len() + if w.warmup > 0 { 1 } else { 0 }) as u64;
+        let range: Vec<_> = chain.mblocks().into_iter().skip(w.start as usize).collect();
         let bad = match *cb {
-            "csvdump" => check_csvdump(&r, cn, &range, 0, tip),
-            "unspentcsvdump" => check_unspent(&r, cn, &range, 0, tip),
-            "balances" => check_balances(&r, cn, &range, 0, tip),
+            "csvdump" => check_csvdump(&r, cn, &range, w.start, tip),
+            "unspentcsvdump" => check_unspent(&r, cn, &range, w.start, tip),
+            "balances" => check_balances(&r, cn, &range, w.start, tip),
             "simplestats" => check_stats(&r, cn, &range),
             _ => check_opreturn(&r, cn, &range),
         };
@@ -460,7 +479,7 @@ fn explore_world(rep: &mut Report, root: &Path, exe: &Path, tag: &str, w: &World
                 if !p.is_empty() {
                     singles += 1;
                     if observe(&rr, &wdir) != baseline {
-                        rep.disagree(sig, format!("{} {} {}: schedule {:?} (execution order {:?}) gives a different result than schedule []", w.coin, w.name, cb, p, oc.order), json!({"kind": "schedule", "world": {"name": w.name, "coin": w.coin, "blocks": w.blocks, "warmup": w.warmup}, "callback": cb, "schedule": p, "preemption_bound": pbound}));
+                        rep.disagree(sig, format!("{} {} {}: schedule {:?} (execution order {:?}) gives a different result than schedule []", w.coin, w.name, cb, p, oc.order), json!({"kind": "schedule", "world": {"name": w.name, "coin": w.coin, "blocks": w.blocks, "warmup": w.warmup, "start": w.start}, "callback": cb, "schedule": p, "preemption_bound": pbound}));
                     }
                 }
                 for i in p.len()..oc.choices.len() {
@@ -496,7 +515,7 @@ fn explore_world(rep: &mut Report, root: &Path, exe: &Path, tag: &str, w: &World
         if myjobs.is_empty() {
             continue;
         }
-        let spec = json!({"name": w.name, "coin": w.coin, "blocks": w.blocks, "warmup": w.warmup, "data": data.display().to_string(), "jobs": myjobs, "preemption_bound": pbound, "budget_ms": budget_ms});
+        let spec = json!({"name": w.name, "coin": w.coin, "blocks": w.blocks, "warmup": w.warmup, "start": w.start, "data": data.display().to_string(), "jobs": myjobs, "preemption_bound": pbound, "budget_ms": budget_ms});
         let sp = wdir.join(format!("spec{}.json", k));
         let op = wdir.join(format!("out{}.json", k));
         std::fs::write(&sp, spec.to_string()).unwrap();
@@ -536,7 +555,7 @@ fn explore_world(rep: &mut Report, root: &Path, exe: &Path, tag: &str, w: &World
             if inflight.is_null() {
                 rep.machinery(format!("{}: worker failed before its first execution", w.name));
             } else {
-                rep.disagree(sig, format!("{} {} {}: schedule {} ended the process ({:?}) while schedule [] ran to completion", w.coin, w.name, inflight["callback"].as_str().unwrap_or("?"), inflight["schedule"], st.map(|s| s.to_string()).unwrap_or_default()), json!({"kind": "schedule", "world": {"name": w.name, "coin": w.coin, "blocks": w.blocks, "warmup": w.warmup}, "callback": inflight["callback"], "schedule": inflight["schedule"], "preemption_bound": pbound}));
+                rep.disagree(sig, format!("{} {} {}: schedule {} ended the process ({:?}) while schedule [] ran to completion", w.coin, w.name, inflight["callback"].as_str().unwrap_or("?"), inflight["schedule"], st.map(|s| s.to_string()).unwrap_or_default()), json!({"kind": "schedule", "world": {"name": w.name, "coin": w.coin, "blocks": w.blocks, "warmup": w.warmup, "start": w.start}, "callback": inflight["callback"], "schedule": inflight["schedule"], "preemption_bound": pbound}));
             }
             continue;
         }
@@ -548,6 +567,10 @@ fn explore_world(rep: &mut Report, root: &Path, exe: &Path, tag: &str, w: &World
             for k in s["outcomes"].as_object().map(|o| o.keys().cloned().collect::<Vec<_>>()).unwrap_or_default() {
                 e.2.insert(k);
             }
+            if s["harness_inconsistent"].as_bool().unwrap_or(false) {
+                rep.machinery(format!("{} {}: schedule [] executed in a worker process differs from schedule [] executed in the root process (harness inconsistency or nondeterminism not owned)", w.name, cb));
+                continue;
+            }
             sync_points_seen += s["sync_points"].as_u64().unwrap_or(0);
             with_preemption += s["schedules_with_preemption"].as_u64().unwrap_or(0);
             capped |= s["capped"].as_bool().unwrap_or(false);
@@ -555,7 +578,7 @@ fn explore_world(rep: &mut Report, root: &Path, exe: &Path, tag: &str, w: &World
                 rep.machinery(format!("{} {}: {} replays diverged from their prefix", w.name, cb, s["diverged"]));
             }
             if !s["violation"].is_null() {
-                rep.disagree(sig, format!("{} {} {}: schedule {} (execution order {}) gives a different result than schedule []", w.coin, w.name, cb, s["violation"]["schedule"], s["violation"]["execution_order"]), json!({"kind": "schedule", "world": {"name": w.name, "coin": w.coin, "blocks": w.blocks, "warmup": w.warmup}, "callback": cb, "schedule": s["violation"]["schedule"], "preemption_bound": pbound}));
+                rep.disagree(sig, format!("{} {} {}: schedule {} (execution order {}) gives a different result than schedule []", w.coin, w.name, cb, s["violation"]["schedule"], s["violation"]["execution_order"]), json!({"kind": "schedule", "world": {"name": w.name, "coin": w.coin, "blocks": w.blocks, "warmup": w.warmup, "start": w.start}, "callback": cb, "schedule": s["violation"]["schedule"], "preemption_bound": pbound}));
             }
         }
     }
@@ -592,6 +615,7 @@ fn explore_world(rep: &mut Report, root: &Path, exe: &Path, tag: &str, w: &World
     let _ = std::fs::remove_dir_all(&wdir);
     sched::set_preemption_bound(0);
     sched::set_warmup_regions(0);
+    START.store(0, std::sync::atomic::Ordering::SeqCst);
     sync_points_seen
 }
 
@@ -690,14 +714,15 @@ fn sync_part(rep: &mut Report, root: &Path, exe: &Path, sync_seen_at_bound_0: u6
     // worlds for the bounded phases: few items, scripts that repeat (shared memo / cache shapes), both evaluators
     let mut worlds: Vec<WorldSpec> = Vec::new();
     for cn in ["bitcoin", "litecoin"] {
-        worlds.push(WorldSpec { name: "1tx x 3out, scripts A B A".into(), coin: cn, blocks: vec![vec![3]], warmup: 0 });
-        worlds.push(WorldSpec { name: "2tx x 2out, scripts A B A".into(), coin: cn, blocks: vec![vec![2, 2]], warmup: 0 });
+        // (--start 1: the first thing such a run evaluates is a parallel region with several items)
+        worlds.push(WorldSpec { name: "1tx x 3out, scripts A B A, --start 1".into(), coin: cn, blocks: vec![vec![3]], warmup: 0, start: 1 });
+        worlds.push(WorldSpec { name: "2tx x 2out, scripts A B A, --start 1".into(), coin: cn, blocks: vec![vec![2, 2]], warmup: 0, start: 1 });
         // one output of every kind (address-bearing with value, zero-value data carrier, P2PK, P2SH)
-        worlds.push(WorldSpec { name: "1tx x 4out".into(), coin: cn, blocks: vec![vec![4]], warmup: 0 });
+        worlds.push(WorldSpec { name: "1tx x 4out".into(), coin: cn, blocks: vec![vec![4]], warmup: 0, start: 0 });
     }
     // non-initial states: 4100 distinct scripts evaluated before the explored block
-    worlds.push(WorldSpec { name: "after 4100 distinct scripts: 1tx x 4out, oldest-of-4096 / new / next / new".into(), coin: "bitcoin", blocks: vec![vec![4]], warmup: 4100 });
-    worlds.push(WorldSpec { name: "after 4100 distinct scripts: 1tx x 4out, oldest-of-1024 / new / next / new".into(), coin: "litecoin", blocks: vec![vec![4]], warmup: 4100 });
+    worlds.push(WorldSpec { name: "after 4100 distinct scripts: 1tx x 4out, oldest-of-4096 / new / next / new".into(), coin: "bitcoin", blocks: vec![vec![4]], warmup: 4100, start: 0 });
+    worlds.push(WorldSpec { name: "after 4100 distinct scripts: 1tx x 4out, oldest-of-1024 / new / next / new".into(), coin: "litecoin", blocks: vec![vec![4]], warmup: 4100, start: 0 });
     let cbs: Vec<&'static str> = vec!["csvdump", "simplestats"];
     let mut total = 0f64;
     // do these worlds meet synchronisation at all? (bound 0 on them is part of the answer and cheap: 6 + 280 schedules)
@@ -742,18 +767,18 @@ fn c13() -> Report {
     let fast = vec!["csvdump", "simplestats", "opreturn"];
     let all5 = vec!["csvdump", "simplestats", "opreturn", "unspentcsvdump", "balances"];
     for cn in ["bitcoin", "litecoin"] {
-        worlds.push((WorldSpec { name: "1tx x 4out".into(), coin: cn, blocks: vec![vec![4]], warmup: 0 }, all5.clone()));
-        worlds.push((WorldSpec { name: "2tx x 2out".into(), coin: cn, blocks: vec![vec![2, 2]], warmup: 0 }, all5.clone()));
-        worlds.push((WorldSpec { name: "2tx x 2out, all outputs carry the same script".into(), coin: cn, blocks: vec![vec![2, 2]], warmup: 0 }, fast.clone()));
-        worlds.push((WorldSpec { name: "3tx x 1out".into(), coin: cn, blocks: vec![vec![1, 1, 1]], warmup: 0 }, fast.clone()));
-        worlds.push((WorldSpec { name: "2 blocks of 2tx x 1out".into(), coin: cn, blocks: vec![vec![1, 1], vec![1, 1]], warmup: 0 }, fast.clone()));
+        worlds.push((WorldSpec { name: "1tx x 4out".into(), coin: cn, blocks: vec![vec![4]], warmup: 0, start: 0 }, all5.clone()));
+        worlds.push((WorldSpec { name: "2tx x 2out".into(), coin: cn, blocks: vec![vec![2, 2]], warmup: 0, start: 0 }, all5.clone()));
+        worlds.push((WorldSpec { name: "2tx x 2out, all outputs carry the same script".into(), coin: cn, blocks: vec![vec![2, 2]], warmup: 0, start: 0 }, fast.clone()));
+        worlds.push((WorldSpec { name: "3tx x 1out".into(), coin: cn, blocks: vec![vec![1, 1, 1]], warmup: 0, start: 0 }, fast.clone()));
+        worlds.push((WorldSpec { name: "2 blocks of 2tx x 1out".into(), coin: cn, blocks: vec![vec![1, 1], vec![1, 1]], warmup: 0, start: 0 }, fast.clone()));
         if thorough {
-            worlds.push((WorldSpec { name: "2tx x 3out".into(), coin: cn, blocks: vec![vec![3, 3]], warmup: 0 }, all5.clone()));
-            worlds.push((WorldSpec { name: "4tx x 1out".into(), coin: cn, blocks: vec![vec![1, 1, 1, 1]], warmup: 0 }, fast.clone()));
+            worlds.push((WorldSpec { name: "2tx x 3out".into(), coin: cn, blocks: vec![vec![3, 3]], warmup: 0, start: 0 }, all5.clone()));
+            worlds.push((WorldSpec { name: "4tx x 1out".into(), coin: cn, blocks: vec![vec![1, 1, 1, 1]], warmup: 0, start: 0 }, fast.clone()));
         }
     }
     if thorough {
-        worlds.push((WorldSpec { name: "3tx x 2out".into(), coin: "bitcoin", blocks: vec![vec![2, 2, 2]], warmup: 0 }, vec!["csvdump"]));
+        worlds.push((WorldSpec { name: "3tx x 2out".into(), coin: "bitcoin", blocks: vec![vec![2, 2, 2]], warmup: 0, start: 0 }, vec!["csvdump"]));
     }
     rep.rule = "for each world (txs x outputs per block) EVERY item-level schedule of the two nested parallel regions (Block::new over transactions, EvaluatedTx::new over outputs) is executed on the repository's own code with rayon replaced by a controlled-scheduler model (baton, real threads, stateless DFS over recorded choice points, no partial-order reduction); every schedule's complete observation (files, simplestats report, opreturn lines; row sets for unspent/balances) must equal schedule 0's, which must equal the reference model; non-trivial = distinct (world, callback, execution order)".into();
     let root = scratch();
@@ -771,14 +796,25 @@ fn c13() -> Report {
     rep.count("wall_ms_preemption_bounded_part", t_phase.elapsed().as_millis() as u64);
     rep.count("predicted_total_schedules", total_pred as u64);
     rep.bound = Value::Object(bound);
-    VERIFY.store(false, std::sync::atomic::Ordering::SeqCst); // the pool-mode worlds start with a synthetic block 0
-    let t_phase = std::time::Instant::now();
-    pool_part(&mut rep, &root);
-    rep.count("wall_ms_pool_mode_and_big_block", t_phase.elapsed().as_millis() as u64);
     rep.assumptions = vec![
         "item closures are pre-empted only at operations on std::sync::{Mutex, RwLock, atomic::*} of the subject's own sources (intercepted through mc/verif-std) and only up to the stated pre-emption bound; between two such operations a closure touches no memory another closure can touch (safe Rust) - unsafe shared memory, thread_local!, primitives of other crates (parking_lot, once_cell, crossbeam) and std::sync::{mpsc, Condvar, Once*, LazyLock} are NOT scheduling points (covered only by the labelled free-running real-rayon pass of the E1 engine and by Miri in the thorough tier)".into(),
         "adapter chains run per item; flat_map is staged".into(),
     ];
+    let _ = std::fs::remove_dir_all(&root);
+    rep
+}
+
+/// The worker-pool mode of the scheduler model and the big-block schedule family, as an engine of its own (`C13-pool`): in the
+/// quick tier it runs beside the item-level trees.
+fn c13_pool() -> Report {
+    let mut rep = Report::new("C13", "e3p");
+    rep.rule = "worker-pool mode of the controlled-scheduler model (2 workers; thread-local state persists per worker; a waiting worker runs other tasks on its own stack): ALL (order x worker assignment) schedules of tiny worlds in which one hash160 is used as P2PKH, P2SH and P2PK, each compared with schedule []; and a block of thousands of chained transactions driven through a stated FAMILY of schedules (policies x workers), each compared with the 1-worker first-enabled run; non-trivial = distinct (task, worker) traces".into();
+    let root = scratch();
+    VERIFY.store(false, std::sync::atomic::Ordering::SeqCst); // the pool-mode worlds start with a synthetic block 0
+    let t_phase = std::time::Instant::now();
+    pool_part(&mut rep, &root);
+    rep.count("wall_ms_pool_mode_and_big_block", t_phase.elapsed().as_millis() as u64);
+    rep.assumptions = vec!["worker-pool mode: operations on std::sync primitives are not scheduling points (a worker is never pre-empted inside a task there)".into()];
     let _ = std::fs::remove_dir_all(&root);
     rep
 }
@@ -791,7 +827,7 @@ fn replay(path: &str) -> i32 {
         eprintln!("not a schedule case");
         return 2;
     }
-    let w = WorldSpec { name: case["world"]["name"].as_str().unwrap().into(), coin: coin(case["world"]["coin"].as_str().unwrap()).name, blocks: serde_json::from_value(case["world"]["blocks"].clone()).unwrap(), warmup: case["world"]["warmup"].as_u64().unwrap_or(0) as usize };
+    let w = WorldSpec { name: case["world"]["name"].as_str().unwrap().into(), coin: coin(case["world"]["coin"].as_str().unwrap()).name, blocks: serde_json::from_value(case["world"]["blocks"].clone()).unwrap(), warmup: case["world"]["warmup"].as_u64().unwrap_or(0) as usize, start: case["world"]["start"].as_u64().unwrap_or(0) };
     let cb = case["callback"].as_str().unwrap();
     let schedule: Vec<usize> = serde_json::from_value(case["schedule"].clone()).unwrap();
     let pbound = case["preemption_bound"].as_u64().unwrap_or(0) as usize;
@@ -803,6 +839,7 @@ fn replay(path: &str) -> i32 {
     VERIFY.store(true, std::sync::atomic::Ordering::SeqCst);
     sched::set_preemption_bound(pbound);
     sched::set_warmup_regions(if w.warmup > 0 { 4 } else { 0 });
+    START.store(w.start, std::sync::atomic::Ordering::SeqCst);
     let (r0, _) = run_once(&data, &dump, w.coin, cb, &[]);
     let base = observe(&r0, &root);
     let (r1, o1) = run_once(&data, &dump, w.coin, cb, &schedule);
